@@ -58,7 +58,7 @@ def apply(m, tmp):
         return r.returncode == 0
     p = os.path.join(tmp, m['file'])
     s = open(p).read()
-    if s.count(m['old']) != 1:
+    if s.count(m['old']) != 1 and not (m.get('all') and s.count(m['old']) >= 1):
         return False
     open(p, 'w').write(s.replace(m['old'], m['new']))
     return True
